@@ -12,6 +12,9 @@ open Femio.C13
 #print axioms C13_nhop_step
 #print axioms C13_nhop_step_selfloops
 #print axioms C13_nhop_step_noloop_counterexample
+#print axioms C13_nhop_add
+#print axioms C13_nhop_double
+#print axioms C13_nhop_binary_power_counterexample
 #print axioms C13_memo_history
 #print axioms C13_memo_history_fresh
 #print axioms C13_memo_wrong_key_counterexample
